@@ -332,3 +332,146 @@ Proof.
   intros Hs. unfold do_transport, Legacy.do_block. rewrite Hs. cbn [lw]. destruct s as [o i n lm sk f ck cn nt q b fl].
   cbn [outq] in *. destruct q; reflexivity.
 Qed.
+
+(* ---- the two-mode operations other than reconnect(), the loss itself and a refused CONNACK keep the socket ---- *)
+Lemma legacy_send_sock s x : sock (fst (Legacy.send s x)) = sock s.
+Proof. unfold Legacy.send. destruct (Legacy.pq (conn s) (Legacy.can_write s) (outq s) x). reflexivity. Qed.
+
+Lemma legacy_on_publish_sock c s m : sock (fst (Legacy.do_on_publish c s m)) = sock s.
+Proof.
+  unfold Legacy.do_on_publish. destruct (c_max c >? 0); [|reflexivity].
+  destruct (Legacy.update_inflight c (conn s) (Legacy.can_write s) (inflight s - 1) (outq s) (remove_mid (o_mid m) (out s))) as [[[o' n] q'] ev].
+  reflexivity.
+Qed.
+
+Lemma legacy_rx_sock c s p r : (forall rc, p <> IConnack rc) -> sock (fst (Legacy.do_rx c s p r)) = sock s.
+Proof.
+  intros Hp. unfold Legacy.do_rx. destruct (sock s) eqn:Hs; cbn [negb]; [|exact Hs].
+  destruct p as [rc|mid|mid|mid|mid|q mid tag].
+  - exfalso. exact (Hp rc eq_refl).
+  - destruct (find_mid mid (out s)) as [m|]; [|exact Hs].
+    pose proof (legacy_on_publish_sock c s m) as H. destruct (Legacy.do_on_publish c s m). cbn [fst] in *. congruence.
+  - destruct (find_mid mid (out s)) as [m|]; [|exact Hs].
+    match goal with |- context [Legacy.send ?s0 ?x0] => pose proof (legacy_send_sock s0 x0) as H; destruct (Legacy.send s0 x0) end.
+    cbn [fst sock with_out] in *. congruence.
+  - destruct (find_mid mid (out s)) as [m|]; [|exact Hs].
+    pose proof (legacy_on_publish_sock c s m) as H. destruct (Legacy.do_on_publish c s m). cbn [fst] in *. congruence.
+  - destruct (in_find mid (inm s)) as [tag|].
+    + destruct (deliver c mid 2 tag r) as [ev pr]. destruct pr; [exact Hs|]. destruct (c_manual c); [exact Hs|].
+      match goal with |- context [Legacy.send ?s0 ?x0] => pose proof (legacy_send_sock s0 x0) as H; destruct (Legacy.send s0 x0) end.
+      cbn [fst sock with_inm] in *. congruence.
+    + destruct (c_manual c); [exact Hs|].
+      match goal with |- context [Legacy.send ?s0 ?x0] => pose proof (legacy_send_sock s0 x0) as H; destruct (Legacy.send s0 x0) end.
+      cbn [fst] in *. congruence.
+  - destruct (q =? 0); [destruct (deliver c 0 0 tag r); exact Hs|].
+    destruct (q =? 1).
+    + destruct (deliver c mid 1 tag r) as [ev pr]. destruct pr; [exact Hs|]. destruct (c_manual c); [exact Hs|].
+      match goal with |- context [Legacy.send ?s0 ?x0] => pose proof (legacy_send_sock s0 x0) as H; destruct (Legacy.send s0 x0) end.
+      cbn [fst] in *. congruence.
+    + match goal with |- context [Legacy.send ?s0 ?x0] => pose proof (legacy_send_sock s0 x0) as H; destruct (Legacy.send s0 x0) end.
+      cbn [fst sock with_inm] in *. congruence.
+Qed.
+
+Lemma legacy_ack_sock c s mid q : sock (fst (Legacy.do_ack c s mid q)) = sock s.
+Proof.
+  unfold Legacy.do_ack. destruct (c_manual c); [|reflexivity].
+  destruct (q =? 1); [apply legacy_send_sock|]. destruct (q =? 2); [apply legacy_send_sock | reflexivity].
+Qed.
+
+Lemma legacy_publish_sock c s q : sock (fst (Legacy.do_publish c s q)) = sock s.
+Proof.
+  unfold Legacy.do_publish. cbv zeta. destruct (q =? 0).
+  - destruct (sock s) eqn:Hs; [|reflexivity].
+    match goal with |- context [Legacy.send ?s0 ?x0] => pose proof (legacy_send_sock s0 x0) as H; destruct (Legacy.send s0 x0) end.
+    cbn [fst sock] in *. congruence.
+  - destruct ((c_maxq c >? 0) && (Z.of_nat (length (out s)) >=? c_maxq c)); [reflexivity|].
+    destruct (has_mid (mid_next (last_mid s)) (out s)); [reflexivity|].
+    destruct (window_free c (inflight s)); [|reflexivity]. destruct (sock s) eqn:Hs; [|reflexivity].
+    match goal with |- context [Legacy.send ?s0 ?x0] => pose proof (legacy_send_sock s0 x0) as H; destruct (Legacy.send s0 x0) end.
+    cbn [fst sock with_out] in *. congruence.
+Qed.
+
+(* ---- the same operations as the two-mode model sees them on a dead socket (a socket that refuses writes): what
+        the property proofs compare the results above with ---- *)
+Lemma legacy_publish_dead_wrote c s q : dead s -> pub_wrote c s q = true ->
+  exists sb, Legacy.do_publish c s q =
+    (sb, [Handed (conn s) (PPublish (mid_next (last_mid s)) q false (ntag s)); Ret (ntag s) (mid_next (last_mid s)) q 0]) /\
+    out sb = out s ++ [mkO (mid_next (last_mid s)) q (wait_of q) false (ntag s)] /\ ntag sb = ntag s + 1 /\
+    outq sb = outq s ++ [mkQ (PPublish (mid_next (last_mid s)) q false (ntag s)) true].
+Proof.
+  intros Hd Hw. pose proof Hd as (Hs & Hf & Hb). unfold pub_wrote in Hw.
+  apply andb_true_iff in Hw as [Hw Hw4]. apply andb_true_iff in Hw as [Hw Hw3]. apply andb_true_iff in Hw as [Hw1 Hw2].
+  apply negb_true_iff in Hw1, Hw2, Hw3.
+  unfold Legacy.do_publish. cbv zeta. rewrite Hw1, Hw2, Hw3, Hw4, Hs.
+  set (s1 := mkS _ _ _ _ _ _ _ _ _ _ _ _). set (s2 := with_out s1 _ _).
+  assert (Hc2 : Legacy.can_write s2 = false) by (unfold Legacy.can_write; cbn; rewrite Hb; reflexivity).
+  rewrite (legacy_send_blocked s2 _ Hc2). eexists. split; [reflexivity|]. cbn. repeat split; reflexivity.
+Qed.
+
+Lemma legacy_connack_first cn : forall l1 m l2 x q, Forall quiet l1 -> cl_pk m = [x] ->
+  exists r q' rest, Legacy.connack_loop cn false q (l1 ++ m :: l2) = (r, q', Handed cn (q_pkt x) :: rest).
+Proof.
+  induction l1 as [|w l1 IH]; intros m l2 x q Hq Hx.
+  - cbn [app Legacy.connack_loop]. unfold cl_pk in Hx. destruct (o_st m) eqn:Est; try discriminate.
+    + inversion Hx; subst. unfold Legacy.pq, Legacy.lw.
+      destruct (Legacy.connack_loop cn false (q ++ [mkQ (pub_pkt m) false]) l2) as [[r q2] ev2]. cbn [app]. do 3 eexists. reflexivity.
+    + destruct (o_qos m =? 2) eqn:Eq; [|discriminate]. inversion Hx; subst. unfold Legacy.pq, Legacy.lw.
+      destruct (Legacy.connack_loop cn false (q ++ [mkQ (rel_pkt m) false]) l2) as [[r q2] ev2]. cbn [app]. do 3 eexists. reflexivity.
+  - inversion Hq as [|? ? [Hw1 Hw2] Hq']; subst. cbn [app Legacy.connack_loop].
+    destruct (IH m l2 x q Hq' Hx) as (r & q' & rest & E).
+    unfold cl_pk, is_queued in Hw1, Hw2. destruct (o_st w) eqn:Est; try discriminate.
+    all: try (unfold Legacy.lw; rewrite E; cbn [app]; do 3 eexists; reflexivity).
+    destruct (o_qos w =? 2); [discriminate|]. unfold Legacy.lw. rewrite E. cbn [app]. do 3 eexists. reflexivity.
+Qed.
+
+Lemma legacy_rx_connack_dead c s r : dead s ->
+  snd (Legacy.do_rx c s (IConnack 0) r) = Inp (IConnack 0) :: snd (Legacy.connack_loop (conn s) false (outq s) (out s)).
+Proof.
+  intros Hd. pose proof Hd as (Hs & _ & _). unfold Legacy.do_rx. rewrite Hs. cbn [negb Z.eqb]. rewrite (canw_dead s Hd).
+  destruct (Legacy.connack_loop (conn s) false (outq s) (out s)) as [[o q'] ev]. reflexivity.
+Qed.
+
+(* the three shapes of the accepting CONNACK on a dead socket, with state and events spelled out *)
+Lemma connack_dead_cases c s r : dead s ->
+  do_rx c s (IConnack 0) r = Legacy.do_rx c s (IConnack 0) r
+  \/ (exists sd, do_rx c s (IConnack 0) r = (sd, [Inp (IConnack 0); SockLost]) /\
+        sock sd = false /\ out sd = out s /\ outq sd = outq s /\ ntag sd = ntag s /\ cack sd = false /\ first sd = false)
+  \/ (exists sd l1 m l2 x rest, do_rx c s (IConnack 0) r = (sd, [Inp (IConnack 0); Handed (conn s) (q_pkt x); SockLost]) /\
+        sock sd = false /\ out s = l1 ++ m :: l2 /\ out sd = l1 ++ cl1 m :: l2 /\ outq sd = outq s ++ [x] /\ ntag sd = ntag s /\
+        cl_pk m = [x] /\
+        snd (Legacy.do_rx c s (IConnack 0) r) = Inp (IConnack 0) :: Handed (conn s) (q_pkt x) :: rest /\
+        cack sd = false /\ first sd = false).
+Proof.
+  intros Hd. pose proof Hd as (Hs & _ & _).
+  destruct (connack_dead (conn s) (out s) (outq s)) as [[H1 H2]|[(Hne & H1 & _)|(l1 & m & l2 & x & El & Ex & Hq1 & Hq & H1)]].
+  - left. unfold do_rx, Legacy.do_rx. rewrite Hs. cbn [negb Z.eqb]. rewrite (tm_dead s Hd), (canw_dead s Hd), H1, H2. reflexivity.
+  - right. left. unfold do_rx. rewrite Hs. cbn [negb Z.eqb]. rewrite (tm_dead s Hd), H1. eexists. split; [reflexivity|].
+    cbn. repeat split; reflexivity.
+  - right. right. unfold do_rx. rewrite Hs. cbn [negb Z.eqb]. rewrite (tm_dead s Hd), H1.
+    destruct (legacy_connack_first (conn s) l1 m l2 x (outq s) Hq1 Ex) as (r0 & q0 & rest & E).
+    eexists. exists l1, m, l2, x, rest. split; [reflexivity|]. cbn [settle sock with_q with_sock with_out out outq ntag cack first].
+    repeat split; try reflexivity; try assumption.
+    rewrite (legacy_rx_connack_dead c s r Hd), El, E. reflexivity.
+Qed.
+
+(* publish(qos>0) without a socket, when nothing refuses it: stored for the next connection, nothing handed over *)
+Lemma legacy_publish_offline_wrote c s q : sock s = false -> pub_wrote c s q = true ->
+  exists so, Legacy.do_publish c s q = (so, [Ret (ntag s) (mid_next (last_mid s)) q 4]) /\
+    out so = out s ++ [mkO (mid_next (last_mid s)) q MsPublish false (ntag s)] /\ ntag so = ntag s + 1 /\
+    outq so = outq s /\ sock so = false.
+Proof.
+  intros Hs Hw. unfold pub_wrote in Hw.
+  apply andb_true_iff in Hw as [Hw Hw4]. apply andb_true_iff in Hw as [Hw Hw3]. apply andb_true_iff in Hw as [Hw1 Hw2].
+  apply negb_true_iff in Hw1, Hw2, Hw3.
+  unfold Legacy.do_publish. cbv zeta. rewrite Hw1, Hw2, Hw3, Hw4, Hs. eexists. split; [reflexivity|]. cbn. repeat split; reflexivity.
+Qed.
+
+Lemma pub_wrote_lost c s q : pub_wrote c (lost s) q = pub_wrote c s q.
+Proof. reflexivity. Qed.
+
+Lemma legacy_publish_ntag0 c s : ntag (lost (fst (Legacy.do_publish c s 0))) = ntag s + 1.
+Proof.
+  unfold Legacy.do_publish. cbv zeta. cbn [Z.eqb]. destruct (sock s); [|reflexivity].
+  match goal with |- context [Legacy.send ?s0 ?x0] => unfold Legacy.send; destruct (Legacy.pq (conn s0) (Legacy.can_write s0) (outq s0) x0) end.
+  reflexivity.
+Qed.
